@@ -442,7 +442,7 @@ pub fn analyse(case: &SmastCase, run: &MastRun) -> (Option<Violation>, bool, u64
             H::PeerTx { t, src, bytes, kind, valid, answers, .. } => {
                 arrivals.push(Arrival { t: *t, pos, src: *src, bytes: bytes.clone(), kind: kind.clone(), valid: *valid, answers: *answers });
             }
-            H::LinkRx { t, ctrl, dest } => {
+            H::LinkRx { t, ctrl, dest, .. } => {
                 // REQUEST_LINK_STATUS from the master (PRM set, function 9)
                 if ctrl & 0x4F == 0x49 {
                     link_requests.push((t.saturating_sub(case.latency.0), *dest));
